@@ -26,7 +26,15 @@ impl<ExecC, QueryC> WasmKeeper<ExecC, QueryC> {
         if self.code_data@.dom().len() == 0 { 0u64 } else { choose|m: u64| self.code_data@.contains_key(m) && forall|k: u64| self.code_data@.contains_key(k) ==> k <= m }
     }
 }
-pub uninterp spec fn spec_instance_count(s: St) -> usize;
+// the instance count: the number of records of the contracts map (namespace "wasm" / "contracts") -- the length of THE
+// ordered range of that window (unique by lemma_range_len_unique); opaque, revealed only where instance_count is proved
+pub open spec fn has_range_len(w: St, n: nat) -> bool {
+    exists|recs: Seq<RecV>, o: Order| #[trigger] is_range_of(recs, w, None, None, o) && recs.len() == n
+}
+#[verifier::opaque]
+pub open spec fn spec_instance_count(s: St) -> usize {
+    choose|n: usize| #[trigger] has_range_len(window(window(s, lp(ns_wasm())), lp(ns_contracts())), n as nat)
+}
 pub open spec fn ns_wasm() -> Seq<u8> { seq![119u8, 97u8, 115u8, 109u8] }   // b"wasm"
 pub open spec fn ns_contracts() -> Seq<u8> { str_bytes("contracts"@) }
 // raw key of a contract's registry record in the root store
